@@ -797,7 +797,7 @@ impl Compiler {
         self.compile_expression(&switch_stmt.discriminant, disc_reg)?;
 
         // Push loop context for break (switch uses the same break mechanism)
-        self.push_loop(None);
+        self.push_switch();
 
         // Collect case targets
         let mut case_jumps: Vec<super::JumpPlaceholder> = Vec::new();
@@ -1073,13 +1073,21 @@ impl Compiler {
         self.builder.set_span(labeled.span);
 
         // Push loop context with label
-        self.push_loop(Some(labeled.label.name.cheap_clone()));
+        self.push_label(labeled.label.name.cheap_clone());
 
         // Compile the body
         self.compile_statement_impl(&labeled.body)?;
 
         // Pop loop context
-        self.pop_loop();
+        if let Some(ctx) = self.pop_loop() {
+            // `continue L` where L labels something other than a loop
+            if ctx.continue_target.is_none() && !ctx.continue_jumps.is_empty() {
+                return Err(JsError::syntax_error_simple(format!(
+                    "Illegal continue statement: '{}' does not denote an iteration statement",
+                    labeled.label.name
+                )));
+            }
+        }
 
         Ok(())
     }
